@@ -1,5 +1,180 @@
-//! (stub)
+//! C08 — block-hash edit distance is the exact insert/delete (LCS) distance.
+
 use crate::common::*;
-use serde_json::Value;
-pub fn replay(_c: &Value) -> Result<(), String> { Err("not implemented".into()) }
-pub fn run(_ctx: &Ctx) -> Report { Report::new("model_checking") }
+use crate::corpus::all_strings;
+use serde_json::{json, Value};
+use ssdeep::internal_comparison::{BlockHashPositionArray, BlockHashPositionArrayImpl};
+use ssdeep::{FuzzyHashCompareTarget, LongFuzzyHash};
+
+fn pa_of(a: &[u8]) -> Result<BlockHashPositionArray, String> {
+    let mut pa = BlockHashPositionArray::new();
+    guarded(|| pa.init_from(a))?;
+    Ok(pa)
+}
+
+/// One ordered pair through every route.
+pub fn check_pair(a: &[u8], b: &[u8]) -> Result<u32, String> {
+    let exp = refmodel::lcs_distance(a, b);
+    let pa = pa_of(a)?;
+    let d = guarded(|| pa.edit_distance(b))?;
+    if d != exp {
+        return Err(format!("edit_distance = {} but len(a)+len(b)-2*LCS = {}", d, exp));
+    }
+    // through a comparison target (block hash 1 and 2 of a long normalized hash), when `a` is normalized
+    if refmodel::is_normalized(a) {
+        let h1 = guarded(|| LongFuzzyHash::new_from_internals_near_raw(0, a, &[]))?;
+        let t1 = FuzzyHashCompareTarget::from(&h1);
+        let d1 = guarded(|| t1.block_hash_1().edit_distance(b))?;
+        let h2 = guarded(|| LongFuzzyHash::new_from_internals_near_raw(0, &[], a))?;
+        let t2 = FuzzyHashCompareTarget::from(&h2);
+        let d2 = guarded(|| t2.block_hash_2().edit_distance(b))?;
+        if d1 != exp || d2 != exp {
+            return Err(format!("edit_distance through a comparison target = {} / {} expected {}", d1, d2, exp));
+        }
+    }
+    Ok(d)
+}
+
+fn check_against_row(pa: &BlockHashPositionArray, a: &[u8], b: &[u8]) -> Result<u32, String> {
+    let exp = refmodel::lcs_distance(a, b);
+    let d = guarded(|| pa.edit_distance(b))?;
+    if d != exp {
+        return Err(format!("edit_distance = {} but len(a)+len(b)-2*LCS = {}", d, exp));
+    }
+    Ok(d)
+}
+
+pub fn replay(c: &Value) -> Result<(), String> {
+    let a = unhex(c["a"].as_str().ok_or("a")?);
+    let b = unhex(c["b"].as_str().ok_or("b")?);
+    check_pair(&a, &b)?;
+    check_pair(&b, &a)?;
+    Ok(())
+}
+
+fn case(a: &[u8], b: &[u8]) -> Value {
+    json!({"a": hex(a), "b": hex(b)})
+}
+
+/// X^i Y^j for all i + j in `totals`
+fn two_run(x: u8, y: u8, totals: &[usize]) -> Vec<Vec<u8>> {
+    let mut v = vec![];
+    for &t in totals {
+        for i in 0..=t {
+            let mut s = vec![x; i];
+            s.extend(vec![y; t - i]);
+            v.push(s);
+        }
+    }
+    v.sort();
+    v.dedup();
+    v
+}
+
+fn all_pairs_section(rep: &mut Report, name: &str, left: &[Vec<u8>], right: &[Vec<u8>], via_target_stride: usize) {
+    let acc = par_shards(left.len(), |i, acc| {
+        let a = &left[i];
+        let pa = match pa_of(a) {
+            Ok(p) => p,
+            Err(e) => {
+                acc.violation(format!("init_from a={}", hex(a)), e, case(a, &[]));
+                return;
+            }
+        };
+        for (j, b) in right.iter().enumerate() {
+            acc.evaluations += 1;
+            if !a.is_empty() && !b.is_empty() {
+                acc.nontrivial += 1;
+            }
+            let r = if via_target_stride > 0 && (i + j) % via_target_stride == 0 { check_pair(a, b) } else { check_against_row(&pa, a, b) };
+            match r {
+                Ok(d) => {
+                    acc.max("max_distance", d as u64);
+                    if d == 0 {
+                        acc.count("distance_zero", 1);
+                    }
+                }
+                Err(e) => acc.violation(format!("a={} b={}", hex(a), hex(b)), e, case(a, b)),
+            }
+        }
+        if i == left.len() / 2 {
+            acc.sample(case(a, &right[right.len() / 3]));
+        }
+    });
+    acc.into_report(rep, name);
+}
+
+pub fn run(ctx: &Ctx) -> Report {
+    let mut rep = Report::new("model_checking");
+    let thorough = ctx.tier == Tier::Thorough;
+    // A1: all pairs over small alphabets
+    let (l2, l3, l4) = if thorough { (12, 9, 6) } else { (11, 8, 5) };
+    let s2 = all_strings(&[0, 63], l2);
+    all_pairs_section(&mut rep, &format!("A1_all_pairs_alphabet2_len_le_{}", l2), &s2, &s2, 97);
+    let s3 = all_strings(&[0, 1, 63], l3);
+    all_pairs_section(&mut rep, &format!("A1_all_pairs_alphabet3_len_le_{}", l3), &s3, &s3, 97);
+    let s4 = all_strings(&[0, 1, 31, 63], l4);
+    all_pairs_section(&mut rep, &format!("A1_all_pairs_alphabet4_len_le_{}", l4), &s4, &s4, 97);
+    // A2: structured families at full length
+    let totals: Vec<usize> = if thorough {
+        (0..=64).collect()
+    } else {
+        vec![0, 1, 2, 3, 4, 5, 6, 7, 8, 15, 16, 17, 31, 32, 33, 47, 48, 49, 60, 61, 62, 63, 64]
+    };
+    let xy = two_run(0, 63, &totals);
+    let yx = two_run(63, 0, &totals);
+    let xz = two_run(0, 5, &totals);
+    all_pairs_section(&mut rep, "A2_two_run_XiYj_vs_XiYj", &xy, &xy, 1009);
+    all_pairs_section(&mut rep, "A2_two_run_XiYj_vs_YiXj", &xy, &yx, 1009);
+    all_pairs_section(&mut rep, "A2_two_run_XiYj_vs_XiZj", &xy, &xz, 1009);
+    // periodic strings (period <= 4) x their rotations and prefixes
+    let mut periodic: Vec<Vec<u8>> = vec![];
+    for p in 1..=4usize {
+        for pat in all_strings(&[0, 7, 63], p).into_iter().filter(|s| s.len() == p) {
+            for &len in &[7usize, 32, 33, 63, 64] {
+                for rot in 0..p {
+                    let s: Vec<u8> = (0..len).map(|k| pat[(k + rot) % p]).collect();
+                    periodic.push(s);
+                }
+            }
+        }
+    }
+    periodic.sort();
+    periodic.dedup();
+    let per_right: Vec<Vec<u8>> = if thorough { periodic.clone() } else { periodic.iter().step_by(5).cloned().collect() };
+    all_pairs_section(&mut rep, "A2_periodic_vs_rotations_and_prefixes", &periodic, &per_right, 1009);
+    // ramp 0..63 against every shifted / truncated copy; single-position differences at length 63 / 64
+    let ramp: Vec<u8> = (0..64u8).collect();
+    let mut shifted: Vec<Vec<u8>> = vec![];
+    for start in 0..64usize {
+        for end in start..=64usize {
+            shifted.push(ramp[start..end].to_vec());
+        }
+    }
+    for s in 1..64usize {
+        let mut r = ramp.clone();
+        r.rotate_left(s);
+        shifted.push(r);
+    }
+    for len in [63usize, 64] {
+        for pos in 0..len {
+            for sym in [0u8, 63, ((pos + 1) % 64) as u8] {
+                let mut r = ramp[..len].to_vec();
+                r[pos] = sym;
+                shifted.push(r);
+            }
+        }
+    }
+    shifted.sort();
+    shifted.dedup();
+    let bases: Vec<Vec<u8>> = vec![ramp.clone(), ramp[..63].to_vec(), ramp.iter().rev().copied().collect(), vec![9; 64], ramp[1..].to_vec()];
+    all_pairs_section(&mut rep, "A2_ramp_vs_shifted_truncated_single_edits", &bases, &shifted, 13);
+    all_pairs_section(&mut rep, "A2_shifted_truncated_vs_ramp(argument_order_swapped)", &shifted, &bases, 13);
+    rep.set("exhaustive", true);
+    rep.set(
+        "rule",
+        "A1: ALL ordered pairs of strings over alphabets of size 2 / 3 / 4 up to the tier's length bound; A2: structured families at the real capacity: two-run strings X^iY^j (carry chains of every length through bit 63) against the same family with equal, swapped and different symbols, periodic strings (period <= 4) against rotations and prefixes, the ramp 0..63 against every substring, rotation and single-symbol edit at length 63 / 64, both argument orders; every pair compared with a textbook DP; a strided subset also through FuzzyHashCompareTarget::block_hash_1()/2().  Pairs are distinct within a section; non-trivial = both strings non-empty.",
+    );
+    rep.assume("beyond the enumerated families (alphabet > 4 with length > the bound, unstructured long strings) nothing is claimed");
+    rep
+}
